@@ -6,6 +6,9 @@
 (* is the state after one update_adaptive_combi(v) request.  Clauses named P_* are the     *)
 (* property; clauses named I_* describe the implementation more closely than the property *)
 (* demands (a failure there is reported as drift, not as a violation).                    *)
+(* Every event may carry q: Seq(<<vec, is_refinable, has_forward_neighbour>>), answers of   *)
+(* the two query methods in the recorded state (I_Queries).  A trace with full = TRUE       *)
+(* starts from init_full_grid: the index set is the whole level box, nothing is active.    *)
 EXTENDS CombiOps, TraceLib
 VARIABLES tid, l, active, old, scheme, fails
 vars == <<tid, l, active, old, scheme, fails>>
@@ -31,6 +34,15 @@ InitClauses(A, O, S) ==
       P_InitClosedForm   |-> PairSet(T.closed) = S,
       P_ClosedFormValue  |-> PairSet(T.closed) = ClosedForm(T.d, T.lmin, T.lmax) ]
 
+QueryClauses(A, O, e) ==
+    [ I_Queries |-> \A i \in 1..Len(e.q) :
+                       LET v == e.q[i][1] IN
+                       /\ e.q[i][2] = (v \in A)
+                       /\ e.q[i][3] = (\E d \in DOMAIN v : Fwd(v, d) \in A \cup O) ]
+FullClauses(A, O, S) ==
+    [ I_FullGridIsBox    |-> A = {} /\ O = [1..T.d -> T.lmin..T.lmax],
+      I_FullGridScheme   |-> S = {<<[i \in 1..T.d |-> T.lmax], 1>>} ]
+
 StepClauses(A, O, A2, O2, e) ==
     LET v == e.v IN
     [ P_OldGrows    |-> O \subseteq O2,
@@ -47,7 +59,9 @@ Init == /\ tid \in 1..NTraces
         /\ old = ToSet(Traces[tid].events[1].old)
         /\ scheme = PairSet(Traces[tid].events[1].scheme)
         /\ fails = FailedOf(StateClauses(active, old, scheme), 1) \cup
-                   (IF Traces[tid].fresh THEN FailedOf(InitClauses(active, old, scheme), 1) ELSE {})
+                   (IF Traces[tid].fresh THEN FailedOf(InitClauses(active, old, scheme), 1) ELSE {}) \cup
+                   (IF Traces[tid].full THEN FailedOf(FullClauses(active, old, scheme), 1) ELSE {}) \cup
+                   FailedOf(QueryClauses(active, old, Traces[tid].events[1]), 1)
         /\ Record(tid, Len(Traces[tid].events), 1, fails)
 
 Next == /\ l < Len(T.events)
@@ -59,6 +73,7 @@ Next == /\ l < Len(T.events)
                 /\ scheme' = PairSet(Ev(l + 1).scheme)
         /\ fails' = fails \cup (IF Ev(l + 1).same THEN {} ELSE FailedOf(StateClauses(active', old', scheme'), l + 1))
                           \cup FailedOf(StepClauses(active, old, active', old', Ev(l + 1)), l + 1)
+                          \cup FailedOf(QueryClauses(active', old', Ev(l + 1)), l + 1)
         /\ Record(tid, Len(T.events), l + 1, fails')
 
 Spec == Init /\ [][Next]_vars
